@@ -141,7 +141,7 @@ def main():
              strict=True, pool=[{}],
              refute=lambda w: native_pair(lambda: (lambda g_, r_: None if abs(float(g_.lat) - r_[0]) < 1e-9 else dict(
                  call='CoordTM(551, 300000.0, 1348000.0, projection=isg).geo(ans, float).lat vs grid2geo(551, 300000.0, 1348000.0, "south", ans, isg)[0]', observed=float(g_.lat), expected=r_[0]))(
-                 cd.CoordTM(551, 300000.0, 1348000.0, projection=C.isg).geo(C.ans, float), cv.grid2geo(551, 300000.0, 1348000.0, 'south', C.ans, C.isg))),
+                 cd.CoordTM(551, 300000.0, 1348000.0, projection=C.isg).geo(C.ans, F), cv.grid2geo(551, 300000.0, 1348000.0, 'south', C.ans, C.isg))),
              note='lat/lon are grid2geo(zone, east, north, hemisphere, ellipsoid, self.projection)')
     P.oblige('CoordTM.geo.heights_kept', 'coord.CoordTM.geo', 'all', dict(result='discharged' if pth and pth[0]['kind'] == 'ret' and okh else 'sat', backend='term identity', ms=0), strict=True)
     pth = run(lambda: cd.CoordTM(zn, ea, no, eh, oh, False, prj).geo(ell, F))
